@@ -270,14 +270,17 @@ func (u *Upstream) WriteDataPoints(ctx context.Context, dataID *message.DataID, 
 		return errors.New("draining")
 	}
 
+	// The flush loop reads the group after this call has returned: hand it a copy, the caller's
+	// slice (and the data id it points to) is the caller's again as soon as we return.
+	id := *dataID
 	select {
 	case <-u.ctx.Done():
 		return errors.ErrStreamClosed
 	case <-ctx.Done():
 		return ctx.Err()
 	case u.dpgCh <- &DataPointGroup{
-		DataID:     dataID,
-		DataPoints: dps,
+		DataID:     &id,
+		DataPoints: append([]*message.DataPoint(nil), dps...),
 	}:
 	}
 
